@@ -210,7 +210,16 @@ def b_sorted(I, a, k, node):
         except TypeError:
             pass
     if isinstance(v, tuple) and v and v[0] == 'items':
-        out = ('items', v[1], v[2], 'sorted')
+        keyfn = k.get('key')
+        by_key = keyfn is None
+        if isinstance(keyfn, tuple) and keyfn and keyfn[0] == 'lambda':
+            lam = keyfn[1]
+            b = lam.body
+            by_key = isinstance(b, ast.Subscript) and isinstance(b.slice, ast.Constant) and b.slice.value == 0
+        pairs = v[1]
+        if all(is_concrete(p_[0]) for p_ in pairs) and not k.get('reverse'):
+            pairs = sorted(pairs, key=lambda p_: str(concrete(p_[0])))
+        out = ('items', pairs, v[2], 'sorted' if by_key and not k.get('reverse') else 'sorted-other')
         return out
     if isinstance(v, AList):
         l = AList(list(v.items), elem=v.elem)
@@ -719,6 +728,7 @@ def m_join(I, recv, a, k, node, kind):
             I.may_raise(node, ['TypeError'], 'join of items of another type', (x,))
     u = Unk('join', kinds=kr, taint=tj(recv, *items), src=('method', recv, 'join', [seq, list(items)]))
     u.joined = (recv, seq, list(items))
+    u.join_sorted = bool(getattr(seq, 'sorted_source', False) or getattr(seq, 'sorted', False))
     sure = [x for x in (seq.items if isinstance(seq, AList) else items)]
     if sure and any((isinstance(x, Unk) and 'truthy' in x.facts) or (is_concrete(x) and concrete(x)) for x in sure):
         u.facts.add('truthy')
@@ -846,7 +856,7 @@ def m_items(I, recv, a, k, node, kind):
     if isinstance(recv, ADict):
         pairs = [(key, v) for key, v in recv.items.items()]
         if recv.open:
-            for i in range(2):
+            for i in range(min(2, max(I.unknown_iters) if I.unknown_iters else 1)):
                 kk = Unk('%s.key%d' % (recv.name, i), kinds=['str'], taint=recv.taint | {'OPTKEY'})
                 vv = Unk('%s.val%d' % (recv.name, i), kinds=recv.valkinds, taint=recv.taint | {'OPTVAL'})
                 pairs.append((kk, vv))
